@@ -210,12 +210,12 @@ class _IState(AH._State):
         try:
             exp = np.array(m[idx], copy=True)
         except Exception as e:   # noqa
-            mexc = e
+            mexc = e.with_traceback(None)
         exc, got = None, None
         try:
             got = self.h[idx]
         except Exception as e:   # noqa
-            exc = e
+            exc = e.with_traceback(None)
         where = 'in_ctx' if self.ctx else 'plain'
         kind = op['index']['k']
         if mexc is not None:
@@ -276,12 +276,12 @@ class _IState(AH._State):
             with np.errstate(all='ignore'):
                 newm[idx] = val
         except Exception as e:   # noqa
-            mexc = e
+            mexc = e.with_traceback(None)
         exc = None
         try:
             self.h[idx] = val
         except Exception as e:   # noqa
-            exc = e
+            exc = e.with_traceback(None)
         where = 'in_ctx' if self.ctx else 'plain'
         kind = op['index']['k']
         if mexc is not None:
